@@ -34,7 +34,7 @@ fn mask128(w: u32) -> u128 {
 }
 
 #[kani::proof]
-fn add_u64_spec() {
+pub fn add_u64_spec() {
     let (m, w) = any_modulus_u64();
     let a: u64 = kani::any();
     let b: u64 = kani::any();
@@ -44,7 +44,7 @@ fn add_u64_spec() {
 }
 
 #[kani::proof]
-fn add_u128_spec() {
+pub fn add_u128_spec() {
     let (m, w) = any_modulus_u128();
     let a: u128 = kani::any();
     let b: u128 = kani::any();
@@ -54,7 +54,7 @@ fn add_u128_spec() {
 }
 
 #[kani::proof]
-fn multiply_u64_spec() {
+pub fn multiply_u64_spec() {
     let (m, w) = any_modulus_u64();
     let a: u64 = kani::any();
     let b: u64 = kani::any();
@@ -64,7 +64,7 @@ fn multiply_u64_spec() {
 }
 
 #[kani::proof]
-fn multiply_u128_spec() {
+pub fn multiply_u128_spec() {
     let (m, w) = any_modulus_u128();
     let a: u128 = kani::any();
     let b: u128 = kani::any();
@@ -81,7 +81,7 @@ macro_rules! vec64 {
         #[kani::stub(std::backtrace::Backtrace::capture, no_backtrace)]
         #[kani::stub(alloc::fmt::format, no_format)]
         #[kani::stub(anyhow::__private::format_err, error_is_failure)]
-        fn $name() {
+        pub fn $name() {
             let a: [u64; 2] = kani::any();
             let b: [u64; 2] = kani::any();
             let m: Option<u64> = $m;
@@ -117,7 +117,7 @@ macro_rules! vec128 {
         #[kani::stub(std::backtrace::Backtrace::capture, no_backtrace)]
         #[kani::stub(alloc::fmt::format, no_format)]
         #[kani::stub(anyhow::__private::format_err, error_is_failure)]
-        fn $name() {
+        pub fn $name() {
             let a: [u128; 2] = kani::any();
             let b: [u128; 2] = kani::any();
             let m: Option<u128> = $m;
@@ -153,7 +153,7 @@ vec128!(vec128_w128_mul, None, 128, true);
 /// broadcast_to_shape: every result element is the NumPy-broadcast source element
 #[kani::proof]
 #[kani::unwind(10)]
-fn broadcast_to_shape_spec() {
+pub fn broadcast_to_shape_spec() {
     use ciphercore_base::evaluators::simple_evaluator::verif_hooks::broadcast_to_shape_u128;
     // source shapes [d0, d1] with d in {1,2} broadcast to [2, 2, 2]
     let d0: u64 = kani::any();
